@@ -24,6 +24,9 @@ pub struct Cfg {
     /// the caller records a business error on the admitted entry before exit (completion is still due)
     #[serde(default)]
     pub traced_error: bool,
+    /// batch count of the entry (None = the builder's default of 1); the contract does not depend on it
+    #[serde(default)]
+    pub batch: Option<u32>,
 }
 
 type Log = Arc<Mutex<Vec<String>>>;
@@ -90,7 +93,11 @@ pub fn run_one(c: &Cfg) -> Result<(usize, String), String> {
             sc.add_stat_prepare_slot(Arc::new(Prep(i, c.preps[i], log.clone())));
         }
     }
-    let r = EntryBuilder::new("c13-res".into()).with_slot_chain(Arc::new(sc)).build();
+    let mut b = EntryBuilder::new("c13-res".into()).with_slot_chain(Arc::new(sc));
+    if let Some(n) = c.batch {
+        b = b.with_batch_count(n);
+    }
+    let r = b.build();
     let after_build = log.lock().unwrap().clone();
     let blockers: Vec<usize> = c.checks.iter().enumerate().filter(|(_, x)| matches!(x.1, Res::BlockFlow | Res::BlockOther)).map(|(i, _)| i).collect();
     // 1. groups in order, each slot exactly once, ascending order values inside a group
@@ -209,26 +216,29 @@ pub fn configs(thorough: bool) -> Vec<Cfg> {
     let mut v = vec![];
     // each kind varied fully against a fixed shape of the others
     for checks in seqs(&check_alpha, k) {
-        v.push(Cfg { preps: vec![2], checks, stats: vec![2, 1], traced_error: false });
+        v.push(Cfg { preps: vec![2], checks, stats: vec![2, 1], traced_error: false, batch: None });
     }
     for preps in seqs(&orders, 4) {
-        v.push(Cfg { preps, checks: vec![(2, Res::Pass), (1, Res::BlockFlow)], stats: vec![1, 1], traced_error: false });
+        v.push(Cfg { preps, checks: vec![(2, Res::Pass), (1, Res::BlockFlow)], stats: vec![1, 1], traced_error: false, batch: None });
     }
     for stats in seqs(&orders, 4) {
-        v.push(Cfg { preps: vec![1], checks: vec![(2, Res::BlockOther), (1, Res::Pass)], stats: stats.clone(), traced_error: false });
-        v.push(Cfg { preps: vec![1], checks: vec![(2, Res::Wait), (1, Res::Pass)], stats, traced_error: false });
+        v.push(Cfg { preps: vec![1], checks: vec![(2, Res::BlockOther), (1, Res::Pass)], stats: stats.clone(), traced_error: false, batch: None });
+        v.push(Cfg { preps: vec![1], checks: vec![(2, Res::Wait), (1, Res::Pass)], stats, traced_error: false, batch: None });
     }
     // jointly for up to 2 slots per kind
     for preps in seqs(&orders, 2) {
         for checks in seqs(&check_alpha, 2) {
             for stats in seqs(&orders, 2) {
-                v.push(Cfg { preps: preps.clone(), checks: checks.clone(), stats, traced_error: false });
+                v.push(Cfg { preps: preps.clone(), checks: checks.clone(), stats, traced_error: false, batch: None });
             }
         }
     }
     // every chain again with a business error traced on the admitted entry
     let traced: Vec<Cfg> = v.iter().filter(|c| !c.checks.iter().any(|x| matches!(x.1, Res::BlockFlow | Res::BlockOther))).map(|c| Cfg { traced_error: true, ..c.clone() }).collect();
     v.extend(traced);
+    // the jointly varied chains again with batch counts 0 and 3
+    let batched: Vec<Cfg> = v.iter().filter(|c| !c.traced_error && c.preps.len() <= 2 && c.checks.len() <= 2 && c.stats.len() <= 2).flat_map(|c| [0u32, 3].into_iter().map(move |n| Cfg { batch: Some(n), ..c.clone() })).collect();
+    v.extend(batched);
     v
 }
 
